@@ -1,6 +1,7 @@
 package main
 
 import (
+	"os"
 	"fmt"
 	"sort"
 	"go/token"
@@ -227,8 +228,50 @@ func (vc *VC) callStatic(act *Act, st *State, callee *ssa.Function, fnVal Val, a
 		for _, ev := range evs {
 			vc.applyEvent(act, st, pre, ev, args, argTypes, res, resT, site)
 		}
+		vc.keepOwnedResults(st, pre, callee, res, resT, site)
 		return res
 	}
+}
+
+// keepOwnedResults: a result the callee made and kept no reference to, and that the caller only reads,
+// is private to the caller from here on (see owned.go).
+func (vc *VC) keepOwnedResults(st, pre *State, callee *ssa.Function, res Val, resT types.Type, site ssa.Instruction) {
+	cv, ok := site.(ssa.Value)
+	if !ok || res == nil || len(callee.Blocks) == 0 || os.Getenv("GVC_NOOWN") != "" {
+		return
+	}
+	keep := func(k int, v Val, t types.Type, use ssa.Value) {
+		if !refLike(t) || use == nil || !vc.eng.ownedResult(callee, k) || !vc.eng.confined(use, false, map[ssa.Value]bool{}) {
+			return
+		}
+		r := refOf(v)
+		if !isAtom(r) || r == "0" {
+			return
+		}
+		vc.assume(st, fmt.Sprintf("(or (= %s 0) (>= %s %s))", r, r, pre.top))
+		vc.assume(st, fmt.Sprintf("(< %s %s)", r, st.top))
+		st.kept[r] = true
+		vc.used[fmt.Sprintf("ownership analysis: result %d of %s is an object made by the callee that nothing else refers to; the caller only reads it", k, vc.eng.shortName(callee))] = true
+	}
+	if tup, ok := resT.(*types.Tuple); ok {
+		tv, ok := res.(TupleV)
+		if !ok {
+			return
+		}
+		for k := 0; k < tup.Len(); k++ {
+			var use ssa.Value
+			if refs := cv.Referrers(); refs != nil {
+				for _, u := range *refs {
+					if ex, ok := u.(*ssa.Extract); ok && ex.Index == k {
+						use = ex
+					}
+				}
+			}
+			keep(k, tv.f[k], tup.At(k).Type(), use)
+		}
+		return
+	}
+	keep(0, res, resT, cv)
 }
 
 func (vc *VC) inlineRequested(callee *ssa.Function) bool {
